@@ -204,6 +204,9 @@ func destinations() []reflect.Type {
 		map[string]int(nil), map[string]interface{}(nil), map[interface{}]interface{}(nil), map[int]string(nil), map[string]string(nil), map[string]gen.Inner(nil), map[string][2]int(nil), map[string][]int(nil),
 		gen.Inner{}, (*gen.Inner)(nil), gen.Tagged{}, struct{ A int }{}, (*list.List)(nil),
 		(*int)(nil), (*string)(nil), (*float64)(nil), (*bool)(nil), (**int)(nil), (*[]byte)(nil), (*time.Time)(nil),
+		// pointers to named types: once the named type has been decoded on its own (it has, at top level, by the
+		// time these are met), the pointer's decoder is the general one over the element's registered decoder
+		(*gen.MyString)(nil), (*gen.MyBytes)(nil), (*gen.MyInt)(nil), (*gen.MyBool)(nil), (*gen.MyFloat)(nil),
 	}
 	var out []reflect.Type
 	for _, p := range protos {
